@@ -28,7 +28,10 @@ def sig(c):
         # a goroutine that waits for a mutex it holds itself (the chain starts and ends in SendEvent) is the cause; the
         # other goroutines queue up behind it
         selfc = [x for x in chains if x.startswith("wait:swap.SwapStateMachine.SendEvent<") and x.endswith("<swap.SwapStateMachine.SendEvent")]
-        if selfc:
+        # ... provided they all wait for the swap mutex (innermost waiting function SendEvent); a goroutine stuck on any
+        # other lock is a different defect
+        others = [x for x in chains if x not in selfc and not x.startswith("wait:swap.SwapStateMachine.SendEvent<")]
+        if selfc and not others:
             return "deadlock:" + sorted(selfc)[0]
         return "deadlock:" + " || ".join(chains)
     return "no-refund:%s:%s" % (c.get("scenario", {}).get("watcher"), o.get("final_state"))
